@@ -87,6 +87,13 @@ def main(argv=None):
         print("ANALYSIS-ERROR property=%s %s: %s" % (pid, type(e).__name__, e))
         return 2
     except Exception as e:  # a crash of the checker is a broken analysis, never a verdict
+        if "ctx" in locals() and ctx.violations:
+            # ... but a violation established before the crash stands on its own (a later rule read what the
+            # violating rule, having reported, no longer computed)
+            ctx.note("analysis stopped early: %s: %s" % (type(e).__name__, e))
+            print("note: analysis stopped after a violation was established (%s: %s)" % (type(e).__name__, str(e)[:200]))
+            ctx.rule_min = {}
+            return ctx.finish()
         traceback.print_exc()
         print("ANALYSIS-ERROR property=%s checker crashed: %s: %s" % (pid, type(e).__name__, e))
         return 2
